@@ -21,7 +21,7 @@ def generate(r, tier, build):
         ops = []
         for _ in range(nops):
             x = r.below(8)
-            ops.append("u32" if x < 3 else "u64" if x < 6 else "jump" if x == 6 and r.chance(1, 2) else "fill:%d" % r.choice([0, 1, 3, 4, 5, 8, 17, r.below(40)]))
+            ops.append("u32" if x < 3 else "u64" if x < 6 else "jump" if x == 6 and r.chance(1, 2) else "fill:%d" % r.choice([0, 1, 3, 4, 5, 8, 17, r.below(40), r.below(40), 255, 256, 257, 300, 511, 512, 513, 1000 + r.below(60)]))
         nf = nops + 2
         script = ["ok"] * nf
         if r.chance(2, 3):
